@@ -189,7 +189,12 @@ func GenWorld(r *core.Rand, maxThings int, small bool) *World {
 
 // Load writes the world into a fresh database through the entity stores (Create).
 func Load(sc *schema.Schema, db *boltz.DbImpl, w *World, r *core.Rand) error {
-	return db.Update(nil, func(ctx boltz.MutateContext) error {
+	return db.Update(nil, func(ctx boltz.MutateContext) error { return LoadCtx(ctx, sc, w, r) })
+}
+
+// LoadCtx writes the world inside the caller's transaction.
+func LoadCtx(ctx boltz.MutateContext, sc *schema.Schema, w *World, r *core.Rand) error {
+	{
 		for _, store := range []string{Owners, Others, Things} {
 			st := sc.St(store)
 			for _, id := range w.Ids(store) {
@@ -216,7 +221,7 @@ func Load(sc *schema.Schema, db *boltz.DbImpl, w *World, r *core.Rand) error {
 			}
 		}
 		return nil
-	})
+	}
 }
 
 // DeriveBackRefs recomputes the derived sets: owners.things (fk back references) and others.things (link set).
